@@ -15,12 +15,22 @@ import sys, os, glob
 sys.path.insert(0, os.getcwd())
 from harness import common
 print(common.translate().strip())
-rc, out = common.make([], timeout=3000)
+# full .vo build; -k: a file that does not build (e.g. work in progress for a property that is
+# not registered yet) must not prevent the others from being built -- every check rebuilds and
+# re-checks exactly what it depends on and reports its own failures
+rc, out = common.make([], timeout=3000, keep_going=True)
 print(out[-3000:])
 if rc != 0:
-    sys.exit("setup: coq build failed")
+    print("setup: WARNING: some Coq files did not build (see above)")
+failed = []
 for f in sorted(glob.glob("coq/Extract/Extract*.v")):
     name = os.path.basename(f)[len("Extract"):-2].lower()
-    print("driver", name, common.build_driver(name))
+    try:
+        print("driver", name, common.build_driver(name))
+    except common.BuildError as e:
+        failed.append(name)
+        print("setup: WARNING: driver", name, "not built:", e.what)
+if "core" in failed:
+    sys.exit("setup: core model failed to build")
 PY
 echo "setup: ok"
